@@ -216,7 +216,9 @@ def plans(tier: str) -> list[dict[str, Any]]:
             out.append(P(f"{tool} on vm1 vm2, 2 workers", trav.ToolScenario(f"t-{tool}", tool, nets="net1 net2", vm_strs=vm12, params={f"{tool}_state_images": "customize"}), m, K=1, statuses=["PASS", "FAIL"], max_nonpass=1, pool_fixed={"customize": ["own", "shared"]}))
         out.append(P("shutdown vm2(Win7) vm3 on net1 net5 net2", _restricted("t-shutdown-net5", "shutdown"), m, K=1, statuses=["PASS"]))
         out.append(P("shutdown vm1, 2 workers", trav.ToolScenario("t-shutdown", "shutdown", nets="net1 net2", vm_strs=vm1), m, K=1, statuses=["PASS"]))
-        out.append(P("get on vm1, worker with excluding restrictions", trav.ToolScenario("t-get-net5", "get", nets="net1 net5", vm_strs=vm1, params={"get_state_images": "customize"}), m, K=1, statuses=["PASS"], pool_fixed={"customize": ["own", "shared"]}))
+        get5 = trav.ToolScenario("t-get-net5", "get", nets="net1 net5", vm_strs=vm1, params={"get_state_images": "customize"})
+        get5.compatible_workers = ["net1"]  # net5 offers only the Fedora variant of vm1
+        out.append(P("get on vm1, worker with excluding restrictions", get5, m, K=1, statuses=["PASS"], pool_fixed={"customize": ["own", "shared"]}))
     return out
 
 
